@@ -125,7 +125,7 @@ def term_to_fd(z, depth=0):
     k = z.get_id()
     r = TERM_REG.get(k)
     if r is not None:
-        return r
+        return r[0]
     if is_lit(z):
         return lit_value(z)
     if z3.is_app_of(z, z3.Z3_OP_ITE) and depth < 40:
@@ -143,7 +143,7 @@ def term_to_fd(z, depth=0):
         except (fd.TooBig, fd.ApplyRaise):
             return None
         if isinstance(r, fd.Node):
-            TERM_REG[k] = r
+            TERM_REG[k] = (r, z)
         return r
     return None
 
@@ -156,7 +156,7 @@ def bool_node_strict(z):
         return False
     k = z.get_id()
     if k in _BRIDGE:
-        r = _BRIDGE[k]
+        r = _BRIDGE[k][0]
         return None if (isinstance(r, fd.Node) and r.zdefs is not None) else r
     if k in fd.GUARD_REG:
         return bool_node(z)
@@ -196,7 +196,7 @@ def bool_node_strict(z):
         if acc is None:
             return is_and
         r = acc
-        _BRIDGE[k] = r
+        _BRIDGE[k] = (r, z)
         return r
     if z3.is_eq(z) and not z3.is_bool(z.arg(0)):
         a = term_to_fd(z.arg(0))
@@ -210,7 +210,7 @@ def bool_node_strict(z):
         except (fd.TooBig, fd.ApplyRaise):
             return None
         if isinstance(r, fd.Node):
-            _BRIDGE[k] = r
+            _BRIDGE[k] = (r, z)
         return r
     if z3.is_app_of(z, z3.Z3_OP_ITE):
         c = bool_node_strict(z.arg(0))
@@ -651,20 +651,20 @@ def bool_node(z):
         return False
     r = _BRIDGE.get(k)
     if r is not None:
-        return r
+        return r[0]
     reg = fd.GUARD_REG.get(k)
     if reg is not None:
-        n, i = reg
+        n, i = reg[0], reg[1]
         if len(n.values) == 2 and n.values[0] is False and n.values[1] is True:
-            r = n if i == 1 else fd.apply(lambda x: not x, n)
+            r = n if i == 1 else fd.normalize_bool(fd.apply(lambda x: not x, n))
         else:
             r = fd.apply(lambda x, v=n.values[i]: vkey(x) == vkey(v), n)
-        _BRIDGE[k] = r
+        _BRIDGE[k] = (r, z)
         return r
     r = bool_node_strict(z)
     if r is not None:
         if isinstance(r, fd.Node):
-            _BRIDGE[k] = r
+            _BRIDGE[k] = (r, z)
         return r
     if z3.is_not(z):
         a = bool_node(z.arg(0))
@@ -690,7 +690,7 @@ def bool_node(z):
     if r is None:
         bt, bf = z3.Bool("br%d=1" % k), z3.Bool("br%d=0" % k)
         r = fd.var("br%d" % k, [False, True], guards=[bf, bt], zdefs=[bt == z, bf == z3.Not(z)])
-    _BRIDGE[k] = r
+    _BRIDGE[k] = (r, z)
     return r
 
 
@@ -726,7 +726,6 @@ def regroup(pairs):
     if all(isinstance(v, bool) for v in vals):
         return mk_bool(_or([g for g, v in zip(gs, vals) if v]))
     # guards that are values of one existing node: a proper derived node
-    regs = [fd.GUARD_REG.get(z3.simplify(g).get_id()) if not z3.is_or(g) else None for g in gs]
     bnodes = [bool_node(g) for g in gs]
     if all(isinstance(b, fd.Node) for b in bnodes) and len(bnodes) <= 5:
         def pick(*bs):
@@ -770,7 +769,7 @@ def fv_apply(f, *args):
     except fd.ApplyRaise as ar:
         raise LeafRaise([(e, bool_of_node(sel)) for e, sel in ar.exc], ar.ok)
     if isinstance(r, fd.Node) and len(r.values) == 2 and all(isinstance(v, bool) for v in r.values):
-        return SBool(bool_of_node(r if (r.values[0] is False) else fd.apply(lambda x: bool(x), r)))
+        return SBool(bool_of_node(fd.normalize_bool(r)))
     return r
 
 
@@ -796,9 +795,9 @@ def str_to_fv(v, domain):
         n = fd.Node(list(domain), (), None)
         bs = n.guards()
         n.zdefs = [b == (v.z == lit(d)) for b, d in zip(bs, domain)]
-        r = n
+        r = (n, v.z)
         _STRFV[k] = r
-    return r
+    return r[0]
 
 
 def fv_to_z3(v, conv):
@@ -911,9 +910,9 @@ def finitize_str(v, cands):
         bs = n.guards()
         eqs = [z3.simplify(v.z == lit(d)) for d in cands]
         n.zdefs = [b == e for b, e in zip(bs, eqs)] + [bs[-1] == z3.Not(_or(eqs))]
-        r = n
+        r = (n, v.z)
         _STRFV[k] = r
-    return r
+    return r[0]
 
 
 # --------------------------------------------------------------------------------------------
